@@ -1,6 +1,9 @@
 package main
 
 import (
+	"verif/checks/c01"
+	"verif/checks/c02"
+	"verif/checks/c03"
 	"verif/checks/c07"
 	"verif/checks/c08"
 	"verif/checks/c09"
@@ -9,6 +12,9 @@ import (
 )
 
 func init() {
+	registry["C03"] = c03.Run
+	registry["C02"] = c02.Run
+	registry["C01"] = c01.Run
 	registry["C07"] = c07.Run
 	registry["C08"] = c08.Run
 	registry["C09"] = c09.Run
